@@ -90,6 +90,11 @@ def bus_term(c):
     return '(BusC tab%d %s %s %s %s %s %s %s %s %s)' % (c['tab'], topic, hook_term(c['hook']), hook_term(c['modify']), PB[c['pub']], N(c['uuid']), N(c['tag']),
                                                       val(*c['val']), C.coq_list([bevent_term(e) for e in c['trace']]), BRES[c['res']])
 
+def reg_term(c):
+    tr = ['(%s %s %s)' % ('RTopic' if e[0] == 'topic' else 'RSub', N(e[1]), N(e[2])) for e in c['trace']]
+    return '(RegC tab%d %s %s %s %s)' % (c['tab'], C.coq_bool(c['cmd']), C.coq_list(['(Hd %s %s)' % (N(h[0]), N(h[1])) for h in c['handlers']]),
+                                       '(Some %s)' % N(c['dup']) if c['dup'] else 'None', C.coq_list(tr))
+
 def describe(d, tabs):
     return dict(kind=KIND[d['kind']], constructor=d['ctor'], marshaler=MARSH[tabs[d['tab']]['marshaler']], AckCommandHandlingErrors=d['ack_errors'], AckOnUnknownEvent=d['ack_unknown'],
                 OnHandle=OH[d['onhandle']], message=dict(source=d['source'], metadata=d['meta'], payload=d['payload'], stale_original_in_ctx=d['stale'], sent_value=d.get('sent')),
@@ -159,15 +164,27 @@ def run(ctx, nscen=None, nbus=None):
                 continue
             busgood.append(c)
             res.nontrivial.add(('bus', c['buskind'], c['ctor'], tabs[c['tab']]['marshaler'], c['val'][0], c['topic'] > 0, str(c['hook']), str(c['modify']), c['pub'], c['res']))
+        reggood = []
+        for c in data.get('regcases') or []:
+            res.evaluations += 1
+            res.count('registration=%s/%d handlers/%s' % ('command' if c['cmd'] else 'event', len(c['handlers']), 'duplicate-rejected' if c['dup'] else 'accepted'))
+            if c['other']:
+                res.violations.append(dict(signature='C15/registration', what=c['other'], case=c))
+                continue
+            reggood.append(c)
+            res.nontrivial.add(('reg', c['cmd'], tabs[c['tab']]['marshaler'], tuple(h[1] for h in c['handlers'])))
         # evaluate: tables as definitions, cases refer to them
-        used = sorted({d['tab'] for d in good} | {c['tab'] for c in busgood})
+        used = sorted({d['tab'] for d in good} | {c['tab'] for c in busgood} | {c['tab'] for c in reggood})
         tabdefs = ''.join('Definition tab%d : codec_tab := %s.\n' % (i, tab_term(tabs[i])) for i in used)
         r = C.coq_eval(pid, 'cases_%d' % rnd, HEADER + tabdefs
                        + 'Definition cases : list c15_case := %s.\n' % C.coq_list([case_term(d) for d in good])
                        + 'Definition buscases : list bus_case := %s.\n' % C.coq_list([bus_term(c) for c in busgood])
+                       + 'Definition regcases : list reg_case := %s.\n' % C.coq_list([reg_term(c) for c in reggood])
                        + 'Definition tabs : list codec_tab := %s.\n' % C.coq_list(['tab%d' % i for i in used]),
                        [('R_mis', 'c15_mismatches cases'), ('R_vio', 'c15_violations cases'),
-                        ('B_mis', 'bus_mismatches buscases'), ('B_vio', 'bus_violations buscases'), ('T_rt', 'c15_tab_failures tabs')])
+                        ('B_mis', 'bus_mismatches buscases'), ('B_vio', 'bus_violations buscases'), ('T_rt', 'c15_tab_failures tabs'), ('G_mis', 'reg_mismatches regcases')])
+        for i in r['G_mis']:
+            res.mismatches.append(dict(kind='Corr.C15.reg_mismatch (CQRS/Model.v cmd_add_handlers_trace / register_handlers vs AddHandlers)', explained_by_violation=False, case=reggood[i]))
         for i in r['R_vio']:
             res.violations.append(dict(signature=sig_of(good[i]) + '/monitor',
                                        what='delivery rejected by the C15 acceptor (handlers invoked iff names match, with the decoded value, in order, stopping at the first failure / '
